@@ -44,7 +44,7 @@ def extra_fields(rng, sch, n):
     f[f'qs{n}'] = gen.STR
     f[f'qb{n}'] = gen.BOOL
     f[f'qa{n}'] = ('arr', gen.NUM, -1)
-    f[f'qf{n}'] = ('arr', gen.NUM, rng.choice((1, 2, 3, 5)))
+    f[f'qf{n}'] = ('arr', gen.NUM, rng.choice((0, 1, 2, 3, 5)))
     f[f'qm{n}'] = ('msg', {f'in{n}': gen.NUM, f'deep{n}': ('msg', {f'leaf{n}': gen.NUM}, {})}, {})
     f[f'qy{n}'] = ('arr', gen.NUM, -1)
     f[f'qp{n}'] = gen.NUM  # two fields only ever compared with each other: any primitive declaration fits
@@ -58,10 +58,11 @@ def numeric_reference(rng, fault, root, n, sch, position=None):
         return ('field', base, name)
     flen = sch[1][f'qf{n}'][2]
     if fault is None:
-        r = gen.pick(rng, (F(f'qn{n}'), ('index', F(f'qa{n}'), A.num('7')),
-                           ('index', F(f'qf{n}'), A.num(str(flen - 1))), F(f'in{n}', F(f'qm{n}')),
-                           F(f'leaf{n}', F(f'deep{n}', F(f'qm{n}')))))
-        return r, None
+        opts = [F(f'qn{n}'), ('index', F(f'qa{n}'), A.num('7')), F(f'in{n}', F(f'qm{n}')),
+                F(f'leaf{n}', F(f'deep{n}', F(f'qm{n}')))]
+        if flen > 0:  # an array declared with length 0 has no valid literal index
+            opts.append(('index', F(f'qf{n}'), A.num(str(flen - 1))))
+        return gen.pick(rng, opts), None
     if fault == 'unknown-field':
         d = rng.randrange(3)
         bogus = f'nope{n}'
@@ -415,6 +416,13 @@ def run(ctx):
                 o = hplapi.outcome(lambda: HT.ArrayType('a', subtype=sub_, length=length))
                 ctx.evaluation(f'array|{length}', True)
                 ctx.count('helpers_judged')
+                if length >= -1 and o[0] == 'ok':
+                    tok = o[1]
+                    got = (tok.length, tok.is_fixed_length, [tok.contains_index(i) for i in range(6)])
+                    exp = (length, length >= 0, [length < 0 or i < length for i in range(6)])
+                    if got != exp:
+                        hv('array-token', {'declared_length': length, 'expected': repr(exp), 'observed': repr(got)},
+                           ('api:contains_index',))
                 if length < -1 and o[0] == 'ok':
                     hv('ill-formed-declaration-accepted', {'case': f'array length {length}'}, ('api:type-constructors',))
                 elif length >= -1 and o[0] != 'ok':
